@@ -1067,6 +1067,12 @@ def wr1(F, R):
     R.require(not other_seeks and not pos_stores, fn, "writes-at-current-offset", "write() moves the file position by other means than seek_from_start(current_offset + to_copy) after a block is written (e.g. jumps to the end first): the data must go where the handle's offset is, in every open mode", fn.loc(other_seeks[0]) if other_seeks else fn.loc(0))
     ul = [(b, t) for b, t in fn.calls() if call_matches(t, ("FileInfo::update_length",))]
     okl = len(ul) == 1 and sk and tstr(fn.term_of_operand(ul[0][1]["args"][1], ul[0][0])) == tstr(fn.term_of_operand(sk[0][1]["args"][1], sk[0][0]))
+    if len(ul) == 1 and sk and not okl:
+        # `update_length(size.max(new_offset))`: the new offset when the file grows, the old length otherwise
+        from .rules_guard import max_with
+        is_size_ = lambda y: y[0] == "place" and [e for e in y[2] if isinstance(e, str)][-2:] == ["entry", "size"]
+        other = max_with(fn.term_of_operand(ul[0][1]["args"][1], ul[0][0]), is_size_)
+        okl = other is not None and tstr(other) == tstr(strip_refs(fn.term_of_operand(sk[0][1]["args"][1], sk[0][0])))
     R.require(okl, fn, "length=new_offset", "the recorded length must become the new offset when the file grows", fn.loc(0))
 
 
